@@ -708,15 +708,15 @@ async fn random_case(inst: &mut Inst, out: &mut Out, rng: &mut Rng, case_no: u64
                 let r = if clean { sh.room.unwrap_or(room) } else { room };
                 s_delnodes(inst, &mut scn, r, vec![(ni, ent, md, del)]).await;
             }
-            74..=81 if persons.len() >= 2 => { let s = *rng.pick(&persons); let d = *rng.pick(&persons); l_addref(inst, &mut scn, s, d).await; }
-            82..=88 if persons.len() >= 2 => {
+            74..=83 if persons.len() >= 2 => { let s = *rng.pick(&persons); let d = *rng.pick(&persons); l_addref(inst, &mut scn, s, d).await; }
+            84..=90 if persons.len() >= 2 => {
                 let (s, d) = if !scn.edges.is_empty() && rng.chance(3, 4) { let e = *rng.pick(&scn.edges); (scn.nodes.iter().position(|n| n.idx == e.0).unwrap(), scn.nodes.iter().position(|n| n.idx == e.1).unwrap()) }
                              else { (*rng.pick(&persons), *rng.pick(&persons)) };
                 let has_edge = scn.edges.iter().any(|e| e.0 == scn.nodes[s].idx && e.1 == scn.nodes[d].idx);
                 let covered = scn.nodes[s].room.is_none() || (has_edge && scn.nodes[s].mdate.div_euclid(DAY) == scn.now.div_euclid(DAY));
                 if !clean || covered { l_delref(inst, &mut scn, s, d).await; }
             }
-            89..=92 if !scn.edges.is_empty() => {
+            91..=95 if !scn.edges.is_empty() => {
                 let e = *rng.pick(&scn.edges);
                 let s = scn.nodes.iter().position(|n| n.idx == e.0).unwrap();
                 let d = scn.nodes.iter().position(|n| n.idx == e.1).unwrap();
